@@ -362,6 +362,9 @@ def run(ck):
                 code, why = classify(res[1], closed, fl)
                 errs = e2e.rustc_errors(res[1], 3)
                 ck.violation("C01-rustc:%s:%s" % (code, why), "rustc rejects the bindings of a header clang accepts", dict(data, rustc=errs, stderr=res[1][-1200:]))
+        import c01_wrap
+        vlib.coq_check_properties(ck, "theories/C01/WrapProperties.v")
+        c01_wrap.run(ck, bindgen, tmp, MEMBERS_H)
         ck.notes["outcomes"] = {"%s/%s" % k: v for k, v in sorted(hist.items())}
         (k, fam, hdr, cpp, fl, ed, closed, origin), res = results[0]
         ck.sample({"family": fam, "flags": fl, "edition": ed, "outcome": res[0]})
